@@ -26,6 +26,12 @@ C={
 "C10":("fault_enumeration","exhaustive sweep of the memory limit (every value 0..M0+64) on the real rewriter for each growth input x chunking x preallocation, with the accounting hook as observation",
  "For every growth case (unterminated tag/attribute/comment/doctype at 11-15 sizes, nesting depths up to 33/200 with selectors, 4 chunkings, 3 preallocation modes) and every F<=2 tag-soup input, under EVERY limit value from 0 to past the first success: no panic, only MemoryLimitExceeded errors, accounted usage <= M after every successful call, retained input <= M in pass-through, success monotone in M with identical output, repeated runs identical.",
  "Uses the _verif_hooks accessor; the limit is the accounting limit (no allocator fault injection); preallocation swept only at values <= M.","DESIGN.md §4 C10"),
+"C04":("model_checking","bounded-exhaustive exploration: selector programs generated from the supported grammar (as ASTs) x every document over a 20-event alphabet up to a length x {single write, cut inside every start tag}, each executed on the real selector compiler+VM and compared with an independent CSS matcher over the explicit-tag tree",
+ "For every generated selector (88 simple selectors, all two-simple compounds of a 14-simple core, all 2- and 3-compound child/descendant chains over cores, :not() with compound/list/nested arguments, selector lists, all pairs of a mixed pool), run alone and in two different groupings, and every document of the alphabet up to the stated length, the element handler runs for exactly the start tags CSS semantics select.",
+ "R-tree/R-match are written from the statement; documents with breakout tags inside svg or foreign roots closed by an ancestor's end tag are outside the statement's tree definition and not generated. One listed known finding (:not() with a compound argument is flattened).","DESIGN.md §4 C04"),
+"C05":("model_checking","bounded-exhaustive exploration: every document over a 14-event alphabet x selector sets x registration subsets (both orders) x {single write, cut inside every token} on the real rewriter, handler log compared with a reference scope model",
+ "For every enumerated document, selector set and set of registrations (element/text/comments/on_end_tag per selector, document-level text/comments/doctype/end; subsets of size<=2 in both orders, the full set in both orders, and content-removing variants) the normalised handler log equals the scope model: exactly once, only in scope, document order, registration order with selector-scoped before document-level, end handler last, end-tag handlers at the closing end tag (own or ancestor's), none for void/unclosed elements.",
+ "Order among several end-tag handlers on the same end tag is compared as a multiset. Reuses R-tree/R-match.","DESIGN.md §4 C05"),
 "C01":("model_checking","bounded-exhaustive exploration of the real rewriter: all strings over two adversarial alphabets x observer configs x all 1-/2-cut, byte-wise and empty-write schedules; oracle = byte identity",
  "No execution of the real rewriter, over every string of the fragment alphabet (len<=3 quick/<=4 thorough) and byte alphabet (len<=4/<=6), every observer handler set of a 16-entry menu, strict on/off, 4 encodings and every listed schedule, emits anything but the input (or a prefix on a strict-mode ambiguity error).",
  "Coverage statement inside the stated alphabets/bounds only; the round-trip exception is decided by encoding_rs.","DESIGN.md §4 C01"),
